@@ -30,6 +30,11 @@ def check_close_all(ctx: Ctx, oid: str) -> None:
                 bound = [bind_args(repo, c, f"{GB}.ChannelFactory._local_close") for c in calls if callee_attr(c) == "_local_close"]
                 idp = [p_ for p_ in repo.func(f"{GB}.ChannelFactory._local_close").params() if p_ != "self"][0]
                 ok = any(idp in b and unparse(b[idp]) == var and "sendonly" in b and repo.fold_in(b["sendonly"], f_fin) is True for b in bound)
+                if not ok:
+                    # judged by effect: every id of the snapshot has its receiving side ended without being closed (sendonly)
+                    from ._chan import close_effects
+                    ce = [c for c in close_effects(repo, f_fin) if c["id"] is not None and c["id"][0] == "elem"]
+                    ok = bool(ce) and all(c["closed"] is False and c["unregistered"] and c["endmarker"] is not False and c["error"] is None for c in ce)
                 seen["channels"] = ok
                 ob.site(f_fin, lp, "every registered channel -> _local_close(id, sendonly=True)", ok=ok)
             elif "self._callbacks" in it:
